@@ -39,6 +39,9 @@ func dlTick(x int) int {
 	return x
 }
 
+// cliLogModes: the client's logging configuration (see the adapters' start); half of the scenarios log nothing.
+var cliLogModes = []int{0, 0, 0, 0, 0, 1, 2, 3, 4, 5}
+
 func wantTypes(v6 bool) []int {
 	if v6 {
 		return []int{2, 7}
@@ -96,7 +99,8 @@ func genCliGeneral(v6 bool) *rapid.Generator[cliScenario] {
 			sc.CloseAt = evTick(rapid.IntRange(0, horizon).Draw(t, "closeat"))
 			sc.DoubleClose = rapid.Bool().Draw(t, "double")
 		}
-		sc.LogDropped = rapid.IntRange(0, 3).Draw(t, "logdropped") == 0
+		sc.CloseFails = rapid.IntRange(0, 3).Draw(t, "closefails") == 0
+		sc.LogMode = rapid.SampledFrom(cliLogModes).Draw(t, "logmode")
 		sc.Dest = rapid.SampledFrom([]int{0, 0, 1, 2, 3}).Draw(t, "dest")
 		return sc
 	})
@@ -143,6 +147,7 @@ func genCliBlocking(v6 bool) *rapid.Generator[cliScenario] {
 			sc.Calls = append(sc.Calls, c2)
 			sc.Dels = append(sc.Dels, cliDeliver{At: evTick(c2.Start + rapid.IntRange(1, sc.T-8).Draw(t, "resp2")), Xid: c2.Xid, Typ: c.Want, Serial: n + 1, Kind: dgGood})
 		}
+		sc.LogMode = rapid.SampledFrom(cliLogModes).Draw(t, "logmode")
 		return sc
 	})
 }
@@ -169,6 +174,7 @@ func genCliBlockedAcross(v6 bool) *rapid.Generator[cliScenario] {
 		k := rapid.IntRange(1, 3).Draw(t, "deadlines")
 		c.ReleaseAt = evTick(max(at, sc.T*((1<<uint(k))-1)) + rapid.IntRange(1, sc.T-8).Draw(t, "past"))
 		sc.Calls = []cliCall{c}
+		sc.LogMode = rapid.SampledFrom(cliLogModes).Draw(t, "logmode")
 		return sc
 	})
 }
@@ -270,7 +276,7 @@ func TestC10_Rapid(t *testing.T) {
 // ---- C11 -----------------------------------------------------------------------------
 
 var c11 = cliCheck("C11", "virtual-time",
-	"the same scenario space under virtual time, asserting completion: every call returns at exactly the instant the model predicts — the arrival instant of the first acceptable response, the instant its context ends (cancellation or deadline), the instant of Close, or timeout×(2^tries−1) whatever traffic arrives (streams of same-id datagrams the matcher rejects included); a returned call's transaction id is immediately reusable; Close returns at once, twice is harmless, and the bubble must drain (no goroutine left behind); non-trivial = a rejected same-id datagram, or Close/cancel while a call is pending; distinct by scenario hash",
+	"the same scenario space under virtual time, asserting completion: every call returns at exactly the instant the model predicts — the arrival instant of the first acceptable response, the instant its context ends (cancellation or deadline), the instant of Close, or timeout×(2^tries−1) whatever traffic arrives (streams of same-id datagrams the matcher rejects included); a returned call's transaction id is immediately reusable; Close returns at once, twice is harmless, also when the socket's own Close reports an error (injected), and the bubble must drain (no goroutine left behind); a grid of Close instants over every try; non-trivial = a rejected same-id datagram, or Close/cancel while a call is pending; distinct by scenario hash",
 	aspTiming)
 
 // genCliStreams: endless-looking streams of rejected same-id datagrams at several periods relative to the timeout.
@@ -298,6 +304,7 @@ func genCliStreams(v6 bool) *rapid.Generator[cliScenario] {
 		if rapid.Bool().Draw(t, "reuse") {
 			sc.Calls = append(sc.Calls, cliCall{Start: callStart(1, end+16), Xid: 1, Matcher: 0, CancelAt: -1, Deadline: -1})
 		}
+		sc.LogMode = rapid.SampledFrom(cliLogModes).Draw(t, "logmode")
 		return sc
 	})
 }
@@ -318,10 +325,43 @@ func TestC11_Rapid(t *testing.T) {
 	}))
 }
 
+// TestC11_CloseGrid: Close at an early, a middle and the last event slot of every try × the socket's own Close
+// succeeding or reporting an error × Close called twice × a rejected datagram arriving at the same instant × every
+// logging configuration; a call started after Close is refused.
+func TestC11_CloseGrid(t *testing.T) {
+	curT = t
+	for _, v6 := range []bool{false, true} {
+		for _, tries := range []int{-1, 1, 2, 3} {
+			n := tries
+			if n < 0 {
+				n = 3
+			}
+			for k := 0; k < n; k++ {
+				s, l := 16*((1<<uint(k))-1), 16<<uint(k)
+				for _, off := range []int{1, l / 2, l - 3} {
+					for mode := 0; mode < 8; mode++ {
+						sc := c12Scenario(v6, 1e6/16, tries, k%4, -1, 0)
+						sc.CloseAt = evTick(s + off)
+						sc.CloseFails = mode&1 != 0
+						sc.DoubleClose = mode&2 != 0
+						if mode&4 != 0 {
+							sc.Dels = []cliDeliver{{At: sc.CloseAt, Kind: dgGood, Xid: sc.Calls[0].Xid, Typ: wantTypes(v6)[1], Serial: 1}}
+						}
+						sc.LogMode = (k + mode) % 6
+						sc.Calls = append(sc.Calls, cliCall{Start: callStart(1, sc.CloseAt+1), Xid: 2, Matcher: 0, CancelAt: -1, Deadline: -1})
+						c11.one(t, sc)
+					}
+				}
+			}
+		}
+	}
+	c11.rec.Class("close grid")
+}
+
 // ---- C12 -----------------------------------------------------------------------------
 
 var c12 = cliCheck("C12", "schedule",
-	"one call per scenario under virtual time over the grid T ∈ {1 ms, 10 ms, 250 ms, 1 s, 5 s} × tries ∈ {−1..6} × request shapes (with and without elapsed-time / large options) × (no response | an accepted response in try k at 1 tick after the send, mid-try, or 1 tick before the deadline); the write log must hold exactly the predicted transmissions: count, instants 0, T, 3T, 7T, …, bytes equal to the request's encoding taken before the call, the requested destination, nothing after the call returned, and the no-response error at T×(2^n−1); unlimited tries are observed for 11 tries (2047 T) before cancellation; non-trivial = every case; distinct by scenario hash",
+	"one call per scenario under virtual time over the grid T ∈ {1 ms, 10 ms, 250 ms, 1 s, 5 s} × tries ∈ {−1..6} × request shapes (with and without elapsed-time / large options) × (no response | an accepted response in try k at 1 tick after the send, mid-try, or 1 tick before the deadline); the write log must hold exactly the predicted transmissions: count, instants 0, T, 3T, 7T, …, bytes equal to the request's encoding taken before the call, the requested destination, nothing after the call returned, and the no-response error at T×(2^n−1); unlimited tries are observed for 11 tries (2047 T) before cancellation; a context deadline placed early, mid-try and last in every try (the transmissions before it are all the scheduled ones); every logging configuration of the clients (none, dropped packets, summary, debug, own logger) with requests carrying unsorted option-request lists; non-trivial = every case; distinct by scenario hash",
 	aspWrites|aspTiming)
 
 func c12Scenario(v6 bool, tickNs int64, tries, variant, respTry, respPos int) cliScenario {
@@ -389,6 +429,31 @@ func TestC12_Grid(t *testing.T) {
 				sc := c12Scenario(v6, 1e6/16, 2, variant, -1, 0)
 				sc.Dest = dest
 				c12.one(t, sc)
+				// the same with every logging configuration: what a client prints about a request does not change it
+				sc.LogMode = 1 + (variant+dest)%5
+				sc.Tries = 3
+				c12.one(t, sc)
+			}
+		}
+	}
+	// a context deadline inside the schedule (at every try k, early, mid-try and just before the try's end): the
+	// transmissions up to that instant are the scheduled ones, all of them, and the call ends at the deadline
+	for _, v6 := range []bool{false, true} {
+		for _, tries := range []int{-1, 2, 3, 5, 6} {
+			n := tries
+			if n < 0 {
+				n = 6
+			}
+			for k := 0; k < n; k++ {
+				s, l := 16*((1<<uint(k))-1), 16*(1<<uint(k))
+				for _, off := range []int{3, l / 2, l - 1} {
+					sc := c12Scenario(v6, 1e6/16, tries, 1, -1, 0)
+					sc.Calls[0].Deadline = dlTick(s + off)
+					if sc.Calls[0].Deadline >= s+l {
+						continue
+					}
+					c12.one(t, sc)
+				}
 			}
 		}
 	}
@@ -412,6 +477,9 @@ func genC12Sequence(v6 bool) *rapid.Generator[cliScenario] {
 				c.Xid = (i + 1) % 3 // overlapping calls need distinct ids
 			}
 			sched := sc.T * ((1 << uint(sc.Tries)) - 1)
+			if rapid.IntRange(0, 3).Draw(t, "with-deadline") == 0 {
+				c.Deadline = dlTick(c.Start+rapid.IntRange(1, sched+8).Draw(t, "deadline")) - c.Start
+			}
 			if k := rapid.IntRange(-1, sc.Tries-1).Draw(t, "answered-in-try"); k >= 0 {
 				at := evTick(c.Start + sc.T*((1<<uint(k))-1) + rapid.IntRange(1, sc.T*(1<<uint(k))-4).Draw(t, "offset"))
 				sc.Dels = append(sc.Dels, cliDeliver{At: at, Kind: dgGood, Xid: c.Xid, Typ: c.Want, Serial: serial})
@@ -424,6 +492,7 @@ func genC12Sequence(v6 bool) *rapid.Generator[cliScenario] {
 				after = c.Start + sched + 16
 			}
 		}
+		sc.LogMode = rapid.SampledFrom(cliLogModes).Draw(t, "logmode")
 		return sc
 	})
 }
@@ -448,7 +517,10 @@ func TestC12_Rapid(t *testing.T) {
 		sc.Dest = rapid.IntRange(0, 3).Draw(rt, "dest")
 		if tries < 0 && rapid.Bool().Draw(rt, "cancel") {
 			sc.Calls[0].CancelAt = evTick(rapid.IntRange(1, 16*40).Draw(rt, "cancelat"))
+		} else if rapid.IntRange(0, 3).Draw(rt, "with-deadline") == 0 {
+			sc.Calls[0].Deadline = dlTick(rapid.IntRange(1, 16*40).Draw(rt, "deadline"))
 		}
+		sc.LogMode = rapid.SampledFrom(cliLogModes).Draw(rt, "logmode")
 		return sc
 	}))
 }
@@ -494,7 +566,7 @@ var c12instant = newChk("C12", "instant-reply",
 			}
 			ad.setDest(c.Dest)
 			conn := netsim.New(64)
-			if err := ad.start(conn, time.Duration(c.T)*tick, c.Tries, false); err != nil {
+			if err := ad.start(conn, time.Duration(c.T)*tick, c.Tries, 0); err != nil {
 				panic(err)
 			}
 			types := wantTypes(c.V6)
@@ -605,7 +677,7 @@ var c11writefail = newChk("C11", "write-failure",
 				return nil
 			}
 			conn.OnWrite = func(w netsim.Write) { sent++ }
-			if err := ad.start(conn, time.Duration(c.T)*tick, c.Tries, false); err != nil {
+			if err := ad.start(conn, time.Duration(c.T)*tick, c.Tries, 0); err != nil {
 				panic(err)
 			}
 			types := wantTypes(c.V6)
